@@ -241,21 +241,18 @@ def run_proc(cmd, cwd=None, cpu_s=20, wall_s=None, mem_gb=4, stdin=None, env=Non
     """run a child with RLIMIT_CPU/AS; wall clock is only a watchdog (-> timed_out, inconclusive)"""
     if wall_s is None:
         wall_s = cpu_s * 10 + 10
-
-    def pre():
-        resource.setrlimit(resource.RLIMIT_CPU, (cpu_s, cpu_s + 1))
-        if mem_gb:
-            b = int(mem_gb * (1 << 30))
-            resource.setrlimit(resource.RLIMIT_AS, (b, b))
-        resource.setrlimit(resource.RLIMIT_CORE, (0, 0))
-        if stack_mb:
-            resource.setrlimit(resource.RLIMIT_STACK, (stack_mb << 20, stack_mb << 20))
-        os.setsid()
-
+    # the limits are set by a tiny shell wrapper and the child gets its own session through start_new_session: a python
+    # preexec_fn would fork under the GIL and serialise the worker threads (measured 4x slower for short children)
+    lim = [f"ulimit -H -t {int(cpu_s) + 1}", f"ulimit -S -t {int(cpu_s)}", "ulimit -c 0"]
+    if mem_gb:
+        lim.append(f"ulimit -v {int(mem_gb * (1 << 20))}")
+    if stack_mb:
+        lim.append(f"ulimit -s {int(stack_mb) << 10}")
+    wrapper = ["/bin/sh", "-c", "; ".join(lim) + '; exec "$@"', "sh"] + list(cmd)
     t0 = time.time()
     try:
-        p = subprocess.Popen(cmd, cwd=cwd, stdin=subprocess.PIPE if stdin is not None else subprocess.DEVNULL,
-                             stdout=subprocess.PIPE, stderr=subprocess.PIPE, preexec_fn=pre, env=env or ENV_BASE)
+        p = subprocess.Popen(wrapper, cwd=cwd, stdin=subprocess.PIPE if stdin is not None else subprocess.DEVNULL,
+                             stdout=subprocess.PIPE, stderr=subprocess.PIPE, start_new_session=True, env=env or ENV_BASE)
     except OSError as e:
         raise Inconclusive(f"cannot start {cmd[0]}: {e}")
     timed_out = False
